@@ -358,6 +358,13 @@ def apply_op(w, op):
                     return [], 'skipped'
                 val = 'x' * (mx + 1)
                 obj = T.lib(w.v).BASE_DATATYPES[dt](val, validation_level=2)
+            elif bad == 3:
+                # an object built under STRICT whose class takes a value that the datatype does not (a negative SI, NM not-a-number)
+                if dt not in ('SI', 'NM'):
+                    return [], 'skipped'
+                from decimal import Decimal
+                val = '-1' if dt == 'SI' else 'NaN'
+                obj = T.lib(w.v).BASE_DATATYPES[dt](-1 if dt == 'SI' else Decimal('NaN'), validation_level=1)
             elif bad == 2:
                 # an object of another base datatype
                 other = 'ST' if dt != 'ST' else 'NM'
@@ -597,7 +604,7 @@ def op_for(draw, cell):
     if kind in ('set', 'del', 'read', 'set_datatype'):
         op['spell'] = draw(st.sampled_from(SPELLS))
     if kind == 'set_datatype':
-        op['bad'] = draw(st.sampled_from([0, 0, 1, 2]))
+        op['bad'] = draw(st.sampled_from([0, 0, 1, 2, 3]))
         op['hl'] = draw(st.booleans())
     if kind in ('setidx', 'delidx', 'remove', 'set_at', 'move', 'del_at'):
         op['i'] = draw(st.integers(-4, 3))
